@@ -356,6 +356,7 @@ fn grid(draws: u32, seed: u64) -> Vec<Case> {
 pub fn main() {
     let args = Args::parse();
     engine::install_hook();
+    engine::maybe_replay_many::<Case>(PROP, &args, exec);
     let started = std::time::Instant::now();
     if let Some(p) = &args.replay {
         let case: Case = engine::load_replay(p);
